@@ -198,8 +198,19 @@ candidates scanned so far. -/
 def search {α : Type} (n : Nat) (found : List α) : Res α :=
   if found.length ≥ n then .ans (found.take n) else .hang found
 
+/-- The answers of `gen_ints(L, U), findall(X, between(L, U, X), List)` found among the candidates that
+the first `fuel` recursion levels of the candidate generator (`gen_int/1`, `diag_ints/2`) produce. -/
+def numlistFound (fuel : Nat) (L U : Arg) (Xs : LArg) : List Tuple :=
+  match L, U with
+  | .int l, .int u => numlistBody l u Xs                                       -- integer(L), integer(U), !
+  | .int l, _ => (enumerateInts fuel 0).flatMap fun u => numlistBody l u Xs    -- gen_int(U)
+  | _, .int u => (enumerateInts fuel 0).flatMap fun l => numlistBody l u Xs    -- gen_int(L)
+  | _, _ => (diagInts fuel).flatMap fun p => numlistBody p.1 p.2 Xs            -- diag_ints(L, U)
+
 /-- `numlist(Lower, Upper, List) :- gen_ints(Lower, Upper), findall(X, between(Lower, Upper, X), List).`
-`fuel` bounds the number of recursion levels of the candidate generators that are scanned. -/
+`fuel` bounds the number of recursion levels of the candidate generators that are scanned: with both
+bounds given the goal is determinate; otherwise the candidate stream never ends, so the goal either
+delivers its `n` answers or is still searching (`hang`). -/
 def numlist3 (n fuel : Nat) (L U : Arg) (Xs : LArg) : Res Tuple :=
   match canBeInt L with
   | some e => .err e
@@ -208,10 +219,8 @@ def numlist3 (n fuel : Nat) (L U : Arg) (Xs : LArg) : Res Tuple :=
   | some e => .err e
   | none =>
   match L, U with
-  | .int l, .int u => ansN n (numlistBody l u Xs)                     -- integer(L), integer(U), !
-  | .int l, _ => search n ((enumerateInts fuel 0).flatMap fun u => numlistBody l u Xs)   -- gen_int(U)
-  | _, .int u => search n ((enumerateInts fuel 0).flatMap fun l => numlistBody l u Xs)   -- gen_int(L)
-  | _, _ => search n ((diagInts fuel).flatMap fun p => numlistBody p.1 p.2 Xs)           -- diag_ints(L, U)
+  | .int _, .int _ => ansN n (numlistFound fuel L U Xs)
+  | _, _ => search n (numlistFound fuel L U Xs)
 
 /-! ## lists.pl: length/2 -/
 
@@ -242,9 +251,11 @@ def fitsI64 (i : Int) : Bool := decide (-(2 ^ 63) ≤ i) && decide (i < 2 ^ 63)
 * `N` unbound: `max_old = -1`, no limit;
 * `N` an integer that fits `i64`: limit `N` if `N ≥ 0`, failure if negative;
 * `N` an integer that does not fit `i64`: `max_steps_n = None`, `is_integer()` holds, so
-  `max_old` stays `-1` — no limit, *whatever the sign*;
+  `max_old` stays `-1` — no limit, *whatever the sign* (`pinned = true`: the code as pinned).
+  With `pinned = false` the test is `is_integer() && !is_negative()` (the fix proposed in
+  notes/findings/C49-1.md): a negative bignum fails like every other negative integer;
 * anything else: failure. -/
-def skipMaxList (N : Arg) (xs0 : PList) : Option (Nat × PList) :=
+def skipMaxList (pinned : Bool) (N : Arg) (xs0 : PList) : Option (Nat × PList) :=
   match N with
   | .var _ => some (xs0.k, ⟨0, xs0.tail⟩)
   | .int i =>
@@ -253,7 +264,8 @@ def skipMaxList (N : Arg) (xs0 : PList) : Option (Nat × PList) :=
         let s := min i.toNat xs0.k
         some (s, ⟨xs0.k - s, xs0.tail⟩)
       else none
-    else some (xs0.k, ⟨0, xs0.tail⟩)
+    else if pinned || decide (i ≥ 0) then some (xs0.k, ⟨0, xs0.tail⟩)
+    else none
   | .bad _ => none
 
 /-- `k` fresh variables starting at `fresh`. -/
@@ -263,10 +275,10 @@ def freshVars (fresh k : Nat) : List Nat := (List.range k).map (fresh + ·)
 `R = 0`: `Xs = []`. Otherwise `'$det_length_rundown'(Xs, R)`: `R` is converted to `usize` and a list of
 `R` fresh variables is allocated — a resource error when that is impossible (`R` negative or beyond
 the memory `cap`). -/
-def lengthRundown (cap fresh : Nat) (nval r : Int) : Res LenAns :=
-  if r = 0 then .ans [⟨nval, []⟩]
+def lengthRundown (cap n fresh : Nat) (nval r : Int) : Res LenAns :=
+  if r = 0 then ansN n [⟨nval, []⟩]
   else if r < 0 then .err .resMemory
-  else if r.toNat ≤ cap then .ans [⟨nval, freshVars fresh r.toNat⟩]
+  else if r.toNat ≤ cap then ansN n [⟨nval, freshVars fresh r.toNat⟩]
   else .err .resMemory
 
 /-- first `n` answers of `length_addendum(Xs, N, M)` with `Xs` unbound; `acc` are the fresh variables
@@ -280,9 +292,9 @@ def lengthAddendum : Nat → Nat → List Nat → Int → List LenAns
   | n + 1, fresh, acc, m => ⟨m, acc⟩ :: lengthAddendum n (fresh + 1) (acc ++ [fresh]) (m + 1)
 
 /-- `length(Xs0, N)`. `cap`: the longest list of fresh variables the heap can hold;
-`fresh`: the first variable not occurring in the query. -/
-def length (cap n fresh : Nat) (xs0 : PList) (N : Arg) : Res LenAns :=
-  match skipMaxList N xs0 with
+`fresh`: the first variable not occurring in the query; `pinned`: see `skipMaxList`. -/
+def length (pinned : Bool) (cap n fresh : Nat) (xs0 : PList) (N : Arg) : Res LenAns :=
+  match skipMaxList pinned N xs0 with
   | some (m, xs) =>                                  -- first clause, after the cut
     if xs = ⟨0, .nil⟩ then                           -- Xs == [] -> N = M
       match N with
@@ -293,7 +305,7 @@ def length (cap n fresh : Nat) (xs0 : PList) (N : Arg) : Res LenAns :=
       match xs.k, xs.tail with
       | 0, .var t =>                                 -- Xs is unbound
         match N with
-        | .int i => lengthRundown cap fresh i (i - m)             -- nonvar(N) -> R is N-M, length_rundown(Xs, R)
+        | .int i => lengthRundown cap n fresh i (i - m)             -- nonvar(N) -> R is N-M, length_rundown(Xs, R)
         | .var v =>
           if v = t then .err .resFinite                           -- N == Xs -> resource_error(finite_memory)
           else .ans (lengthAddendum n fresh [] m)                 -- length_addendum(Xs, N, M)
